@@ -3,6 +3,8 @@
 //! The Lean driver answers each line with a verdict (see /verif/lean/Rough/Driver).
 mod codec;
 mod merkle;
+mod rig;
+mod srv;
 mod util;
 
 fn main() {
@@ -42,6 +44,7 @@ fn main() {
     match args[1].as_str() {
         "codec" => codec::run(&ctx),
         "merkle" => merkle::run(&ctx),
+        "srv" => srv::run(&ctx),
         "replay" => replay(&ctx),
         other => {
             eprintln!("unknown stream {}", other);
@@ -76,6 +79,7 @@ fn replay(ctx: &Ctx) {
         match op {
             "dec" | "disp" | "enc" => codec::replay_one(&mut out, op, args),
             "merkle" => merkle::replay_one(&mut out, args),
+            "srv" => srv::replay_one(&mut out, args),
             _ => eprintln!("replay: unknown op {}", op),
         }
     }
